@@ -917,6 +917,7 @@ func useHistory(c *lib.Ctx, n int, r *lib.Rand, nOps int, listeners bool) bool {
 				default:
 					t2 += []int64{renewal, renewal + 1, window, validity + 1}[r.Intn(4)]
 				}
+				t2 = max(t2, h.now)
 			}
 			h.opNTP(r, i, t2)
 		case x < 70:
